@@ -194,18 +194,44 @@ void Groups::evalArguments( int argc, char* argv[]) noexcept( false)
 
    mEvaluating = true;
 
+   // the handler that processed the previous element: a free value belongs to
+   // the (multi-value) argument that was used directly before it, so this
+   // handler is asked first for values
+   Handler*  last_handler = nullptr;
+
    for (auto ai = alp.begin(); ai != alp.end(); ++ai)
    {
-      auto  result = Handler::ArgResult::unknown;
+      auto        result = Handler::ArgResult::unknown;
+      const bool  is_value =
+         ai->mElementType == detail::ArgListElement::Type::value;
+
+      if (is_value && (last_handler != nullptr))
+         result = last_handler->evalSingleArgument( ai, alp.end());
+
       for (auto & stored_group : mArgGroups)
       {
+         if (result != Handler::ArgResult::unknown)
+            break;   // for
+         if (is_value && (stored_group.mpArgHandler.get() == last_handler))
+            continue;   // for
          result = stored_group.mpArgHandler->evalSingleArgument( ai, alp.end());
          if (result != Handler::ArgResult::unknown)
          {
-            usage_printed |= stored_group.mpArgHandler->usagePrinted();
-            break;   // for
+            last_handler = stored_group.mpArgHandler.get();
+            usage_printed |= last_handler->usagePrinted();
          } // end if
       } // end for
+
+      if (!is_value && (result != Handler::ArgResult::unknown))
+      {
+         // an argument of one handler ends the value list of the last argument
+         // of all the other handlers
+         for (auto & stored_group : mArgGroups)
+         {
+            if (stored_group.mpArgHandler.get() != last_handler)
+               stored_group.mpArgHandler->mpLastArg = nullptr;
+         } // end for
+      } // end if
 
       if (result == Handler::ArgResult::unknown)
       {
